@@ -68,6 +68,17 @@ theorem C17_typed_result_type (prog : Prog) (f : String) (d : FnDef) (hfn : prog
   have h2 := (VRel.hasType_encode this.2).1
   rwa [VTy.toTy_ofTy] at h2
 
+/-- the verdict the check computes (`progTyped`: every function of the program is typed) gives both for every function
+that can be called by its name -/
+theorem C17_progTyped_sound (prog : Prog) (h : progTyped prog = true) (f : String) (d : FnDef) (hfn : prog.fn? f = some d)
+    (vs : List Val) (hvs : argsTyped d.params vs = true) (fuel : Nat) :
+    (∀ why, runFn fuel prog f vs ≠ .error (.stuck why)) ∧ (∀ r, runFn fuel prog f vs = .ok r → r.hasType d.ret = true) := by
+  have hmem : d ∈ prog.fns := List.mem_of_find?_eq_some hfn
+  have hty : fnTyped prog d = true := by
+    unfold progTyped at h
+    exact List.all_eq_true.mp h d hmem
+  exact ⟨C17_typed_never_stuck prog f d hfn hty vs hvs fuel, fun r hr => C17_typed_result_type prog f d hfn hty vs hvs fuel r hr⟩
+
 /-! ### non-vacuity: `fn inc(a: u8) -> u8 { a + 1u8 }` is typed, `fn bad(a: u8) -> u8 { a + true }` is not -/
 
 def C17_inc : FnDef := ⟨"inc", [("a", .int .u8)], .int .u8, .cons (.expr (.bin .add (.int .u8) (.var "a") (.int 1 .u8))) .nil⟩
